@@ -197,7 +197,22 @@ impl<T: ?Sized> RwLock<T> {
     }
 
     fn read_unlock(&self) {
-        let mut r = self.rlock.lock().expect("rwlock read_unlock");
+        // a guard is released no matter what: a cancel must not end the wait for the
+        // reader count, the count would never be decremented and the lock stay taken
+        // (not while unwinding: a coroutine must not be switched out in the middle of that)
+        let cancel = if crate::coroutine_impl::is_coroutine() && !std::thread::panicking() {
+            Some(crate::coroutine_impl::current_cancel_data())
+        } else {
+            None
+        };
+        if let Some(c) = cancel.as_ref() {
+            c.disable_cancel();
+        }
+        let r = self.rlock.lock();
+        if let Some(c) = cancel.as_ref() {
+            c.enable_cancel();
+        }
+        let mut r = r.expect("rwlock read_unlock");
         #[cfg(may_verif)]
         may_queue::verif::point(may_queue::verif::site::RW_READ_UNLOCK_GOT_RLOCK, self as *const Self as *const () as usize);
         *r -= 1;
